@@ -719,14 +719,20 @@ class _SubtypeDistanceVisitor(TypeVisitor[int | None]):
             The distance between the two types or None if they are not connected.
         """
         if isinstance(self.subtype, Instance):
+            class_distance = self.graph.get_shortest_path_length(
+                supertype.type, self.subtype.type
+            )
+            if class_distance is None:
+                # The classes are not related, e.g., list[int] and set[int].
+                return None
             if supertype.args and self.subtype.args:
                 distances = list(
                     map(self.graph.subtype_distance, supertype.args, self.subtype.args)
                 )
                 if any(dist is None for dist in distances):
                     return None
-                return sum(distances)  # type: ignore[arg-type]
-            return self.graph.get_shortest_path_length(supertype.type, self.subtype.type)
+                return class_distance + sum(distances)  # type: ignore[arg-type]
+            return class_distance
 
         if isinstance(self.subtype, UnionType):
             distances = [
